@@ -739,7 +739,9 @@ fn c10_permutations(rep: &mut Report, rng: &mut Rng) {
 pub fn run_c10(cfg: &Config) -> i32 {
 	let started = Instant::now();
 	let mut total = Report::new();
-	if let Err(m) = jcs::selftest() {
+	if cfg!(miri) {
+		total.note("oracle self-tests skipped under Miri (run by the native pass of the same invocation)");
+	} else if let Err(m) = jcs::selftest() {
 		total.inconclusive.push(format!("oracle self-test failed: {}", m))
 	}
 	let seed = cfg.seed;
